@@ -417,6 +417,9 @@ func (s *Server) serveHTTP(w http.ResponseWriter, r *http.Request) (int, error) 
 
 	// look up the virtualhost; if no match, serve error
 	vhost, pathPrefix := s.vhosts.Match(hostname + r.URL.Path)
+	// the host name the lookup used: the vhost trie normalizes
+	// it once more (lower-case, without port or IPv6 brackets)
+	routedHost, _ := s.vhosts.splitHostPath(hostname + r.URL.Path)
 	c := context.WithValue(r.Context(), casket.CtxKey("path_prefix"), pathPrefix)
 	r = r.WithContext(c)
 
@@ -456,10 +459,12 @@ func (s *Server) serveHTTP(w http.ResponseWriter, r *http.Request) (int, error) 
 	// enforce strict host matching, which ensures that the SNI
 	// value (if any), matches the Host header; essential for
 	// sites that rely on TLS ClientAuth sharing a port with
-	// sites that do not - if mismatched, close the connection
+	// sites that do not - if mismatched, close the connection;
+	// the SNI value is compared to the host name the site was
+	// looked up by (see above)
 	if !vhost.TLS.InsecureDisableSNIMatching && r.TLS != nil &&
 		vhost.TLS.ClientAuth != tls.NoClientCert &&
-		strings.ToLower(r.TLS.ServerName) != strings.ToLower(hostname) {
+		strings.ToLower(r.TLS.ServerName) != routedHost {
 		r.Close = true
 		log.Printf("[ERROR] %s - strict host matching: SNI (%s) and HTTP Host (%s) values differ",
 			vhost.Addr, r.TLS.ServerName, hostname)
